@@ -237,7 +237,11 @@ pub fn run_case(case: &Case) -> RunOutput {
     // clean registry (left-overs of an aborted previous case in this process)
     futures::executor::block_on(unregister_all());
     install_case(Some(Rc::clone(&cx)));
-    hannibal::verif::install(Some(Rc::new(SimBackend(Rc::clone(&sim)))));
+    // the hook's preemption points (after a lock acquisition, after the stop notification) are await
+    // points that the real library does not have: a case that cancels the actor task "at any await
+    // point" must not cancel it there, so such cases run without them
+    let preempt = !case.faults.iter().any(|f| matches!(f, Fault::CancelActor { .. }));
+    hannibal::verif::install(Some(Rc::new(SimBackend(Rc::clone(&sim), preempt))));
     {
         let cx2 = Rc::downgrade(&cx);
         *sim.on_event.borrow_mut() = Some(Box::new(move |e| {
@@ -504,6 +508,25 @@ async fn setup(case: &Case, inboxes: &[Inbox]) {
     for (slot, spec) in case.actors.iter().enumerate() {
         if spec.parent.is_some() {
             continue;
+        }
+        // a service registered through the builder's own `register()` terminal (only where it cannot be
+        // refused: the first registered slot of its kind)
+        if let SpawnSpec::Register { builder: Some(m) } = spec.spawn {
+            let first = !case.actors[..slot].iter().any(|s| s.kind == spec.kind && matches!(s.spawn, SpawnSpec::Register { .. }));
+            if first && spec.peer.is_none() {
+                let beh = std::sync::Arc::new(spec.beh.clone());
+                let got = if spec.kind == 0 {
+                    crate::probe::register_via_builder::<0>(slot, beh, m).await.map(|(a, _)| AnyAddr::A0(a))
+                } else {
+                    crate::probe::register_via_builder::<1>(slot, beh, m).await.map(|(a, _)| AnyAddr::A1(a))
+                };
+                log(EvKind::Note(format!("setup-register actor={slot} ok={}", got.is_ok())));
+                if let Ok(addr) = got {
+                    log(EvKind::HandleNew { client: None, actor: slot, kind: HKind::Addr, id: u32::MAX });
+                    with_case(|c| c.primary.borrow_mut()[slot] = Some(addr));
+                }
+                continue;
+            }
         }
         let spawned = spawn_slot(slot);
         let addr = match spawned {
@@ -1063,9 +1086,9 @@ async fn exec_op(me: usize, opi: usize, op: &ClientOp, table: &mut Table, all: &
             let kind = *kind % 2;
             log(EvKind::OpBegin { client: me, op: opi, what: OpWhat::Reg(*rop, kind), actor: None, via: None, msg: None });
             let (res, polls) = if kind == 0 {
-                counted(reg_op::<0>(me, *rop, table)).await
+                counted(reg_op::<0>(me, *rop, table, opi % 2 == 1)).await
             } else {
-                counted(reg_op::<1>(me, *rop, table)).await
+                counted(reg_op::<1>(me, *rop, table, opi % 2 == 1)).await
             };
             end(me, opi, OpRes::Reg(res), polls);
         }
@@ -1206,10 +1229,27 @@ where
 }
 
 /// identity without a call: only possible for handles the harness created itself
-async fn reg_op<const K: u8>(me: usize, rop: RegOp, table: &mut Table) -> RegRes
+async fn reg_op<const K: u8>(me: usize, rop: RegOp, table: &mut Table, alt: bool) -> RegRes
 where
     Probe<K>: Wrap,
 {
+    if rop == RegOp::Register && alt {
+        // the builder's `register()` terminal: spawn + register in one call
+        let actor = with_case(|c| c.new_actor(K, Origin::RegOp));
+        let beh = with_case(|c| std::sync::Arc::new(c.case.default_beh.get(K as usize).cloned().unwrap_or_default()));
+        let mailbox = if actor % 3 == 0 { Mailbox::Bounded(2) } else { Mailbox::Unbounded };
+        return match crate::probe::register_via_builder::<K>(actor, beh, mailbox).await {
+            Ok((me_addr, replaced)) => {
+                table.push(Some(new_held(Some(me), actor, H::Addr(<Probe<K> as Wrap>::addr(me_addr)))));
+                let replaced = match replaced {
+                    Some(r) => Some(actor_of(&r).await),
+                    None => None,
+                };
+                RegRes::Registered { me: actor, replaced: replaced.map(|x| x.unwrap_or(usize::MAX)) }
+            }
+            Err(err) => RegRes::RegisterErr { me: actor, err },
+        };
+    }
     match rop {
         RegOp::FromRegistry => {
             let a = Probe::<K>::from_registry().await;
